@@ -30,7 +30,8 @@ func permute(n int) []int {
 }
 
 // norm: {"from": godata, "opts": [...], "repeat": n} ->
-//   {"first": view, "again": view of NewFrom(unpacked data), "outcomes": number of distinct outcomes over the repeats}
+//
+//	{"first": view, "again": view of NewFrom(unpacked data), "outcomes": number of distinct outcomes over the repeats}
 func kNorm(c J) interface{} {
 	repeat := numInt(c["repeat"], 1)
 	outcomes := map[string]bool{}
